@@ -1385,3 +1385,114 @@ Proof.
   - unfold nwc_fix in H. rewrite nwc_step_shape in H. exact (line_fix_row_local _ nwc_line_no_nl _ _ _ H).
   - unfold nrr_fix in H. rewrite nrr_step_shape in H. exact (line_fix_row_local _ nrr_line_no_nl _ _ _ H).
 Qed.
+
+(* ------------------------------------------------------------------ the Fmt fix and its state *)
+
+Section FmtFixProofs.
+  Variable parse_module : rver -> str -> str -> option rver.
+  Variable format_ast : rver -> N -> rver -> str -> str -> option str.
+
+  Notation ffix := (fmt_fix parse_module format_ast).
+  Notation frun := (fmt_run parse_module format_ast).
+
+  (* Fix writes nothing but the RegoVersion field of the options *)
+  Lemma fmt_fix_other st c : fs_other (fst (ffix st c)) = fs_other st.
+  Proof.
+    unfold fmt_fix. destruct (fc_name c) as [|n0 nt]; [reflexivity|].
+    destruct (parse_module (fc_version c) (n0 :: nt) (fc_contents c)) as [mv|]; reflexivity.
+  Qed.
+
+  (* what Fix returns for a file does not depend on the RegoVersion found in the options *)
+  Lemma fmt_fix_state_independent st1 st2 c :
+    fs_other st1 = fs_other st2 -> snd (ffix st1 c) = snd (ffix st2 c).
+  Proof.
+    intros Ho. unfold fmt_fix. destruct (fc_name c) as [|n0 nt]; [reflexivity|].
+    destruct (parse_module (fc_version c) (n0 :: nt) (fc_contents c)) as [mv|]; [|reflexivity].
+    cbn [snd fs_version fs_other]. rewrite Ho. reflexivity.
+  Qed.
+
+  (* the version left in the options is the version the file just handled was formatted for, or
+     the old one when the file did not parse *)
+  Lemma fmt_fix_state_after st c :
+    fst (ffix st c) = st \/
+    exists mv, parse_module (fc_version c) (fc_name c) (fc_contents c) = Some mv /\
+               fst (ffix st c) = {| fs_version := fmt_target mv; fs_other := fs_other st |}.
+  Proof.
+    unfold fmt_fix. destruct (fc_name c) as [|n0 nt]; [left; reflexivity|].
+    destruct (parse_module (fc_version c) (n0 :: nt) (fc_contents c)) as [mv|] eqn:Hp; [|left; reflexivity].
+    right. exists mv. split; reflexivity.
+  Qed.
+
+  Theorem fmt_run_history_independent cs : forall st,
+    frun st cs = map (fun c => snd (ffix st c)) cs.
+  Proof.
+    induction cs as [|c t IH]; intros st; [reflexivity|].
+    cbn [fmt_run map]. f_equal. rewrite IH. apply map_ext. intros c'.
+    apply fmt_fix_state_independent. apply fmt_fix_other.
+  Qed.
+
+  Theorem fmt_run_app st pre c post :
+    frun st (pre ++ c :: post) = frun st pre ++ snd (ffix st c) :: frun st post.
+  Proof.
+    rewrite !fmt_run_history_independent. rewrite map_app. reflexivity.
+  Qed.
+
+  Theorem fmt_effect st c out :
+    snd (ffix st c) = FmtChanged out ->
+    exists mv, parse_module (fc_version c) (fc_name c) (fc_contents c) = Some mv /\
+               format_ast (fmt_target mv) (fs_other st) (fc_version c) (fc_name c) (fc_contents c) = Some out /\
+               out <> fc_contents c /\ fc_name c <> [].
+  Proof.
+    unfold fmt_fix. destruct (fc_name c) as [|n0 nt]; [discriminate|].
+    destruct (parse_module (fc_version c) (n0 :: nt) (fc_contents c)) as [mv|] eqn:Hp; [|discriminate].
+    cbn [snd fs_version fs_other].
+    destruct (format_ast (fmt_target mv) (fs_other st) (fc_version c) (n0 :: nt) (fc_contents c)) as [o|] eqn:Hf;
+      [|discriminate].
+    destruct (str_eqb o (fc_contents c)) eqn:He; [discriminate|].
+    intros H. injection H as <-. exists mv. repeat split; try assumption; try discriminate.
+    intros Heq. apply str_eqb_eq in Heq. congruence.
+  Qed.
+
+  Theorem fmt_nothing_iff st c :
+    snd (ffix st c) = FmtNone <->
+    fc_name c <> [] /\
+    exists mv, parse_module (fc_version c) (fc_name c) (fc_contents c) = Some mv /\
+               format_ast (fmt_target mv) (fs_other st) (fc_version c) (fc_name c) (fc_contents c)
+               = Some (fc_contents c).
+  Proof.
+    unfold fmt_fix. destruct (fc_name c) as [|n0 nt].
+    { split; [discriminate|]. intros [H _]. congruence. }
+    destruct (parse_module (fc_version c) (n0 :: nt) (fc_contents c)) as [mv|] eqn:Hp.
+    2:{ split; [discriminate|]. intros (_ & mv & H & _). discriminate. }
+    cbn [snd fs_version fs_other].
+    destruct (format_ast (fmt_target mv) (fs_other st) (fc_version c) (n0 :: nt) (fc_contents c)) as [o|] eqn:Hf.
+    2:{ split; [discriminate|]. intros (_ & mv' & H & H2). injection H as <-. congruence. }
+    destruct (str_eqb o (fc_contents c)) eqn:He.
+    - apply str_eqb_eq in He. subst o. split; [|reflexivity]. intros _. split; [discriminate|].
+      exists mv. split; [reflexivity|assumption].
+    - split; [discriminate|]. intros (_ & mv' & H & H2). injection H as <-.
+      rewrite Hf in H2. injection H2 as ->. rewrite (proj2 (str_eqb_eq _ _) eq_refl) in He. discriminate.
+  Qed.
+End FmtFixProofs.
+
+(* toy oracles for the regression witness: a module is v1 when its text starts with '1', v0
+   otherwise; "formatting" prefixes the text with the rank of the version it was formatted for *)
+Definition toy_parse (_ : rver) (_ contents : str) : option rver :=
+  Some (match contents with 49%N :: _ => RvV1 | _ => RvV0 end).
+Definition toy_format (v : rver) (_ : N) (_ : rver) (_ contents : str) : option str :=
+  Some (N.of_nat (rver_rank v) :: contents).
+
+Theorem fmt_keep_newest_depends_on_history :
+  exists st c1 c0,
+    fmt_run_keep_newest toy_parse toy_format st [c0] <> [] /\
+    (exists o, fmt_run_keep_newest toy_parse toy_format st [c1; c0] = [snd (fmt_fix_keep_newest toy_parse toy_format st c1); o] /\
+               o <> snd (fmt_fix_keep_newest toy_parse toy_format st c0)) /\
+    fmt_run toy_parse toy_format st [c1; c0]
+    = [snd (fmt_fix toy_parse toy_format st c1); snd (fmt_fix toy_parse toy_format st c0)].
+Proof.
+  exists {| fs_version := RvUndef; fs_other := 0 |},
+         {| fc_name := [112%N]; fc_contents := [49%N]; fc_version := RvUndef |},
+         {| fc_name := [113%N]; fc_contents := [48%N]; fc_version := RvUndef |}.
+  split; [vm_compute; discriminate|]. split; [|vm_compute; reflexivity].
+  eexists. split; [vm_compute; reflexivity|]. vm_compute. discriminate.
+Qed.
